@@ -12,7 +12,7 @@ import random
 
 from .schemas import canon
 
-TEXT_ALPHABET = ["a", "b", "c", " ", "é", "\U0001F600", "x", "\n", "Z", "́"]
+TEXT_ALPHABET = ["a", "b", "c", " ", "é", "\U0001F600", "x", "\n", "Z", "́", "\u00a0", "\u2003"]
 ATTR_POOL = {"level": [1, 2, 3], "src": ["img.png", "a&b\"c"], "href": ["foo", "http://x/?a=1&b=2"],
              "order": [1, 3], "alt": [None, "x"], "title": [None, "t<>"], "meta": [None, 1], "id": [1, 2]}
 GENERIC_VALUES = [None, 1, "v", [1, {"k": None}]]
